@@ -150,9 +150,9 @@ int get_reg_number(const char *token, int max)
     if (*token < '0' || *token > '9') { return -1; }
     num = (num * 10) + (*token - '0');
     token++;
-  }
 
-  if (num > max) { return -1; }
+    if (num > max) { return -1; }
+  }
 
   return num;
 }
